@@ -1,5 +1,9 @@
 import Flowjaxv.Proofs.Leaves
 import Flowjaxv.Proofs.Rqs
+import Flowjaxv.Proofs.Planar
+import Flowjaxv.Proofs.Triangular
+import Flowjaxv.Proofs.LogDet
+import Flowjaxv.Proofs.NetLawful
 /-!
 # C01 — every bijection is invertible: inverse undoes transform, both ways
 
@@ -85,5 +89,310 @@ theorem invert_chain_instance {C : Type} :
   Gen.invert_lawful (Gen.chain_lawful
     (.cons (Leaves.leakytanh_lawful (Leaves.leaky_init_wf (by norm_num)))
       (.cons (Leaves.affine_lawful _ (by norm_num)) (.nil _))))
+
+
+/-! ### Planar and TriangularAffine -/
+
+/-- **Planar, leaky-relu activation** — the four methods GENERATED from `_UnconditionalPlanar` for
+`activation = "leaky_relu"` (`Gen/Planar.lean`).  For every dimension `n`, every `w ≠ 0`, `u`, `b`
+(`û = get_act_scale()` is computed by the generated code) and every slope `0 < negative_slope ≤ 1`:
+`inverse(transform x) = x` and `transform(inverse y) = y` for EVERY `x, y ∈ ℝⁿ` — both sides of the kink
+`w·x + b = 0` and on it.  The slope test on the numerator `w·y + b` selects the piece `x` came from
+because `1 + s·w·û > 0` (C11's `planar_constraint` / `planar_leaky_det_pos`).  For `negative_slope > 1`
+the statement is false (known finding `planar_steep`). -/
+theorem planar_lrelu_lawful {C : Type} {n : ℕ} (p : UnconditionalPlanar ℝ) (hw : p.weight.length = n)
+    (hu : p._act_scale.length = n) (hne : Jnp.dot p.weight p.weight ≠ 0) {s : ℝ} (hs0 : 0 < s) (hs1 : s ≤ 1) :
+    (Planar.lreluBij p s : Bij (List ℝ) C ℝ).Lawful {x | x.length = n} {y | y.length = n} :=
+  PlanarPf.lrelu_lawful ⟨hw, hu, hne⟩ hs0 hs1
+
+/-- … spelled out on the generated functions -/
+theorem planar_lrelu_left_inverse {n : ℕ} (p : UnconditionalPlanar ℝ) (hw : p.weight.length = n)
+    (hu : p._act_scale.length = n) (hne : Jnp.dot p.weight p.weight ≠ 0) {s : ℝ} (hs0 : 0 < s) (hs1 : s ≤ 1)
+    (x : List ℝ) (hx : x.length = n) : p.inverse_lrelu s (p.transform_lrelu s x) = x :=
+  (PlanarPf.lrelu_lawful (C := Unit) ⟨hw, hu, hne⟩ hs0 hs1).left x hx ()
+
+theorem planar_lrelu_right_inverse {n : ℕ} (p : UnconditionalPlanar ℝ) (hw : p.weight.length = n)
+    (hu : p._act_scale.length = n) (hne : Jnp.dot p.weight p.weight ≠ 0) {s : ℝ} (hs0 : 0 < s) (hs1 : s ≤ 1)
+    (y : List ℝ) (hy : y.length = n) : p.transform_lrelu s (p.inverse_lrelu s y) = y :=
+  (PlanarPf.lrelu_lawful (C := Unit) ⟨hw, hu, hne⟩ hs0 hs1).right y hy ()
+
+/-- `Planar` (conditional or not): `get_planar` splits a parameter vector of length `2n+1` (the stored
+array, or the conditioner's output for ANY condition) into `w, u, b`; whenever its `w` part is non-zero the
+resulting bijection is lawful. -/
+theorem planar_get_planar_lawful {C : Type} {n : ℕ} (params : List ℝ) (hl : params.length = 2 * n + 1)
+    (hne : Jnp.dot (params.take n) (params.take n) ≠ 0) {s : ℝ} (hs0 : 0 < s) (hs1 : s ≤ 1) :
+    (Planar.lreluBij (Planar.getPlanar n params) s : Bij (List ℝ) C ℝ).Lawful
+      {x | x.length = n} {y | y.length = n} :=
+  PlanarPf.lrelu_lawful (PlanarPf.getPlanar_wf hl hne) hs0 hs1
+
+/-- non-vacuity: `w = (1, 0)`, `u = (0, 3)`, `b = 0`, slope `1/2` in dimension 2 -/
+theorem planar_instance :
+    (Planar.lreluBij ⟨[1, 0], [0, 3], (0 : ℝ)⟩ (1 / 2) : Bij (List ℝ) Unit ℝ).Lawful
+      {x | x.length = 2} {y | y.length = 2} :=
+  planar_lrelu_lawful _ rfl rfl (by simp [ParamsPf.jdot_eq]) (by norm_num) (by norm_num)
+
+/-- **Forward / back substitution** (what `solve_triangular(lower=True/False)` computes) invert the
+matrix–vector product for every lower / upper triangular `n × n` matrix with non-zero diagonal, both
+ways, for every `n` (induction on the dimension). -/
+theorem triangular_solve_lower {n : ℕ} {A : List (List ℝ)} (h : TriPf.LowerTri n A) (v : List ℝ)
+    (hv : v.length = n) :
+    Tri.matVec A (Tri.solveLower A v) = v ∧ Tri.solveLower A (Tri.matVec A v) = v :=
+  ⟨TriPf.matVec_solveLower h hv, TriPf.solveLower_matVec h hv⟩
+
+theorem triangular_solve_upper {n : ℕ} {A : List (List ℝ)} (h : TriPf.UpperTri n A) (v : List ℝ)
+    (hv : v.length = n) :
+    Tri.matVec A (Tri.solveUpper A v) = v ∧ Tri.solveUpper A (Tri.matVec A v) = v :=
+  ⟨TriPf.matVec_solveUpper h hv, TriPf.solveUpper_matVec h hv⟩
+
+/-- **TriangularAffine** (hand model `Model/Triangular.lean`, tied to the code by the correspondence):
+`triangular` lower (resp. upper) triangular `n × n` according to the flag `lower`, non-zero diagonal of
+either sign, `loc` of length `n` ⇒ lawful on `ℝⁿ`. -/
+theorem triangular_lawful {C : Type} {n : ℕ} {t : Tri.TriAffine ℝ} (h : TriPf.TriWF n t) :
+    (t.toBij : Bij (List ℝ) C ℝ).Lawful {x | x.length = n} {y | y.length = n} :=
+  TriPf.triangular_lawful h
+
+/-- … in particular for the matrix the constructor stores, `diag(softplus raw) + tril/triu(arr, ∓1)`, for
+EVERY real raw diagonal parameter, every square `arr`, either orientation, every dimension. -/
+theorem triangular_of_raw_lawful {C : Type} {n : ℕ} (lower : Bool) (raw : List ℝ) (arr : List (List ℝ))
+    (loc : List ℝ) (hsq : TriPf.Square n arr) (hr : raw.length = n) (hl : loc.length = n) :
+    ((Tri.ofRaw lower raw arr loc).toBij : Bij (List ℝ) C ℝ).Lawful {x | x.length = n} {y | y.length = n} :=
+  TriPf.triangular_lawful (TriPf.ofRaw_wf lower raw arr loc hsq hr hl)
+
+/-- non-vacuity: an upper-triangular 2 × 2 matrix with a negative diagonal entry -/
+theorem triangular_instance :
+    (({ triangular := [[2, 1], [0, -3]], loc := [1, 5], lower := false } : Tri.TriAffine ℝ).toBij :
+      Bij (List ℝ) Unit ℝ).Lawful {x | x.length = 2} {y | y.length = 2} := by
+  apply triangular_lawful
+  refine ⟨rfl, ?_⟩
+  simp only [Bool.false_eq_true, if_false]
+  refine ⟨⟨rfl, by intro r hr; simp at hr; rcases hr with rfl | rfl <;> rfl⟩, ?_, ?_⟩
+  · intro i j hji hi
+    have : i = 1 ∧ j = 0 := by omega
+    obtain ⟨rfl, rfl⟩ := this
+    simp [TriPf.entry]
+  · intro i hi
+    have : i = 0 ∨ i = 1 := by omega
+    rcases this with rfl | rfl <;> simp [TriPf.entry]
+
+/-! ## ===== BEGIN network bijections: Coupling, MaskedAutoregressive, BlockAutoregressiveNetwork =====
+
+Statements about the hand-written models `Model/Masks.lean` (forward passes; tied to /repo by `tools/props/c09.py`) and
+`Model/NetInverse.lean` (inverse passes, `…_and_log_det`), instantiated at `ℝ`.  Helpers in `Proofs/NetLawful.lean`.
+`tf : List ℝ → Bij ℝ Unit ℝ` is the scalar transformer family (`transformer_constructor`: parameter row ↦ scalar
+bijection); `T ps`, `Tinv ps` its two plain maps. -/
+section NetworkBijections
+open Masks MasksPf Model
+
+/-- **`coupling_lawful`** — `Coupling.inverse` undoes `Coupling.transform` and vice versa, for EVERY conditioner
+function `cnd` (any network, any weights), every first-block size `d`, every dimension (`x.length`), every condition:
+the first block is returned unchanged, so the conditioner sees the same input both ways and produces the same
+parameters.  Scalar transformers `tf ps : D₁ ↔ E₁` (e.g. `univ ↔ univ` for Affine / spline, `univ ↔ (0,∞)` for Exp).
+Guard of the real code: `untransformed_dim < dim`.  For `d ≥ dim` nothing is transformed; the model (total) returns its
+input, so the statement is trivially true there, whereas the real constructor accepts `untransformed_dim = dim` and then
+EVERY method raises `ZeroDivisionError` (`jnp.reshape(params, (0, -1))`) — checked by `tools/props/netinv.py`. -/
+theorem coupling_lawful (d : Nat) (cnd : List ℝ → List ℝ) (tf : List ℝ → Bij ℝ Unit ℝ) (D₁ E₁ : Set ℝ)
+    (htf : ∀ ps, (tf ps).Lawful D₁ E₁) :
+    (couplingBij d cnd tf).Lawful {x | ∀ t ∈ x.drop d, t ∈ D₁} {y | ∀ t ∈ y.drop d, t ∈ E₁} :=
+  NetLawful.coupling_lawful d cnd tf D₁ E₁ htf
+
+/-- the same as two plain equations, scalar maps that are mutually inverse bijections of ℝ for every parameter row -/
+theorem coupling_inverse_correct (d : Nat) (cnd : List ℝ → List ℝ) (T Tinv : List ℝ → ℝ → ℝ)
+    (hl : ∀ ps t, Tinv ps (T ps t) = t) (hr : ∀ ps t, T ps (Tinv ps t) = t) (x cond : List ℝ) :
+    couplingInverse d cnd Tinv (couplingTransform d cnd T x cond) cond = x ∧
+    couplingTransform d cnd T (couplingInverse d cnd Tinv x cond) cond = x :=
+  ⟨NetLawful.coupling_cancel d cnd T Tinv univ (fun ps t _ => hl ps t) x cond (fun _ _ => trivial),
+   NetLawful.coupling_cancel d cnd Tinv T univ (fun ps t _ => hr ps t) x cond (fun _ _ => trivial)⟩
+
+/-- **the induction behind the sequential inverse**: `MaskedAutoregressive.inverse` runs `dim` passes of `inv_scan_fn`
+(recompute ALL transformer parameters from the current vector, invert every coordinate, keep only coordinate `rank`).
+For every well-shaped masked network (all raw weights, biases, activation, sizes, both rank branches) and `y = transform x`:
+after `k` passes the coordinates `0 … k-1` are the true preimage's and the coordinates `≥ k` are still `y`'s. -/
+theorem maf_inverse_passes (N : MafNet ℝ) (hN : N.WellShaped) (T Tinv : List ℝ → ℝ → ℝ)
+    (hl : ∀ ps t, Tinv ps (T ps t) = t) (cond x : List ℝ) (hx : x.length = N.dim) (k : Nat) (hk : k ≤ N.dim) :
+    (∀ j, j < k → ((List.range k).foldl (N.invStep Tinv cond) (N.transform T x cond))[j]? = x[j]?) ∧
+    (∀ j, k ≤ j → ((List.range k).foldl (N.invStep Tinv cond) (N.transform T x cond))[j]?
+      = (N.transform T x cond)[j]?) :=
+  NetLawful.maf_passes_prefix N hN T Tinv univ (fun ps t _ => hl ps t) cond x hx (fun _ _ => trivial) k hk
+
+/-- **`maf_inverse_correct`** — after the `dim` passes the result is the preimage: `inverse (transform x) = x` and
+`transform (inverse y) = y` for every vector of length `dim`, every condition, all weights. -/
+theorem maf_inverse_correct (N : MafNet ℝ) (hN : N.WellShaped) (T Tinv : List ℝ → ℝ → ℝ)
+    (hl : ∀ ps t, Tinv ps (T ps t) = t) (hr : ∀ ps t, T ps (Tinv ps t) = t) (cond x : List ℝ)
+    (hx : x.length = N.dim) :
+    N.inverse Tinv (N.transform T x cond) cond = x ∧ N.transform T (N.inverse Tinv x cond) cond = x :=
+  ⟨NetLawful.maf_left N hN T Tinv univ (fun ps t _ => hl ps t) cond x hx (fun _ _ => trivial),
+   NetLawful.maf_right N hN T Tinv univ (fun ps t _ => hr ps t) cond x hx (fun _ _ => trivial)⟩
+
+/-- `maf_inverse_correct` as a `Bij.Lawful` statement (with the `…_and_log_det` points), scalar transformers `D₁ ↔ E₁` -/
+theorem maf_lawful (N : MafNet ℝ) (hN : N.WellShaped) (tf : List ℝ → Bij ℝ Unit ℝ) (D₁ E₁ : Set ℝ)
+    (htf : ∀ ps, (tf ps).Lawful D₁ E₁) :
+    (mafBij N tf).Lawful {x | x.length = N.dim ∧ ∀ t ∈ x, t ∈ D₁} {y | y.length = N.dim ∧ ∀ t ∈ y, t ∈ E₁} :=
+  NetLawful.maf_lawful N hN tf D₁ E₁ htf
+
+/-- **BNAF satisfies the hypotheses of C10**: for a strictly increasing activation, all raw weights / biases / raw
+scales of the stack `BlockAutoregressiveNetwork.__init__` builds (`NetLawful.BnafOK`: block shapes
+`bnafBlockShapes depth bd`, `bd ≥ 1`, every layer with the shapes `block_autoregressive_linear` allocates), every
+condition and target `y`: the function the inverter scans over, `x ↦ transform(x, condition) - y`
+(`bnafInvFn`), is `Bisection.Triangular` — output `i` depends on `x_0 … x_i` only (`bnaf_dependency`) and strictly
+increases in `x_i` (`bnaf_strict_mono`). -/
+theorem bnaf_triangular (act : ℝ → ℝ) (hact : StrictMono act) {dim depth bd : Nat} {Ls : List (BnafLayer ℝ)}
+    {condLinear : Option (List (List ℝ))} (hok : NetLawful.BnafOK dim depth bd Ls condLinear) (cond y : List ℝ)
+    (hy : y.length = dim) : Bisection.Triangular (bnafInvFn act Ls condLinear cond y) dim :=
+  NetLawful.bnaf_triangular act hact hok cond y hy
+
+/-- the BNAF forward map is injective on vectors of length `dim` (so a preimage, when it exists, is unique) -/
+theorem bnaf_injective (act : ℝ → ℝ) (hact : StrictMono act) {dim depth bd : Nat} {Ls : List (BnafLayer ℝ)}
+    {condLinear : Option (List (List ℝ))} (hok : NetLawful.BnafOK dim depth bd Ls condLinear) (cond x x' : List ℝ)
+    (hx : x.length = dim) (hx' : x'.length = dim)
+    (h : bnafTransform act Ls condLinear x cond = bnafTransform act Ls condLinear x' cond) : x = x' :=
+  NetLawful.bnaf_injective act hact hok cond x x' hx hx' h
+
+/-- **`bnaf_invertible`, exact form** — `inverse (transform xs) = xs`: the coordinate-by-coordinate scan of
+`AutoregressiveBisectionInverter` run on `y = transform(xs, condition)` with a scalar solver that returns the exact
+root of every strictly increasing function that has one, returns `xs` — from ANY initial vector.
+Hypothesis made explicit: the roots exist because `y` IS an image (`y = transform xs`). -/
+theorem bnaf_inverse_exact (act : ℝ → ℝ) (hact : StrictMono act) {dim depth bd : Nat} {Ls : List (BnafLayer ℝ)}
+    {condLinear : Option (List (List ℝ))} (hok : NetLawful.BnafOK dim depth bd Ls condLinear) (cond xs : List ℝ)
+    (hxs : xs.length = dim) (solve : (ℝ → ℝ) → Option ℝ)
+    (hsolve : ∀ (g : ℝ → ℝ) (r : ℝ), StrictMono g → g r = 0 → solve g = some r)
+    (y₀ : List ℝ) (hy₀ : y₀.length = dim) :
+    autoregressiveScan solve (bnafInvFn act Ls condLinear cond (bnafTransform act Ls condLinear xs cond)) dim 0 y₀
+      = some xs :=
+  Bisection.scan_exact
+    (NetLawful.bnaf_triangular act hact hok cond _
+      (NetLawful.bnafTransform_length act dim depth bd Ls hok.hshapes hok.hws condLinear cond xs))
+    xs hxs (NetLawful.bnaf_root act hok cond xs) solve hsolve dim 0 y₀ (by omega) hy₀
+    (fun j hj => absurd hj (by omega))
+
+/-- every own-coordinate slice `t ↦ transform(x.at[i].set(t))[i]` is continuous and ONTO ℝ when the activation is a
+strictly increasing bijection of ℝ — all weights, depth, block_dim, condition.  (This is the "a root exists in each
+coordinate" hypothesis of the bisection search.) -/
+theorem bnaf_slice_surjective (act : ℝ → ℝ) (hact : StrictMono act) (hsurj : Function.Surjective act)
+    {dim depth bd : Nat} {Ls : List (BnafLayer ℝ)} {condLinear : Option (List (List ℝ))}
+    (hok : NetLawful.BnafOK dim depth bd Ls condLinear) (cond x : List ℝ) (hx : x.length = dim) (i : Nat) (hi : i < dim) :
+    Continuous (fun t => nth (bnafTransform act Ls condLinear (x.set i t) cond) i) ∧
+    Function.Surjective fun t => nth (bnafTransform act Ls condLinear (x.set i t) cond) i :=
+  NetLawful.bnaf_slice_surjective act hact hsurj hok cond x hx i hi
+
+/-- **`bnaf_invertible`** — for an activation that is a strictly increasing bijection of ℝ (the default `LeakyTanh`;
+see `bnaf_leakytanh_invertible`): every `y ∈ ℝ^dim` has exactly one preimage `xs`, and the inverter's scan with an
+exact scalar solver returns it from any initial vector: `transform (inverse y) = y` and (by `bnaf_inverse_exact`)
+`inverse (transform x) = x`. -/
+theorem bnaf_invertible (act : ℝ → ℝ) (hact : StrictMono act) (hsurj : Function.Surjective act)
+    {dim depth bd : Nat} {Ls : List (BnafLayer ℝ)} {condLinear : Option (List (List ℝ))}
+    (hok : NetLawful.BnafOK dim depth bd Ls condLinear) (cond y : List ℝ) (hy : y.length = dim)
+    (solve : (ℝ → ℝ) → Option ℝ)
+    (hsolve : ∀ (g : ℝ → ℝ) (r : ℝ), StrictMono g → g r = 0 → solve g = some r)
+    (y₀ : List ℝ) (hy₀ : y₀.length = dim) :
+    ∃ xs, xs.length = dim ∧ bnafTransform act Ls condLinear xs cond = y ∧
+      (∀ xs', xs'.length = dim → bnafTransform act Ls condLinear xs' cond = y → xs' = xs) ∧
+      autoregressiveScan solve (bnafInvFn act Ls condLinear cond y) dim 0 y₀ = some xs := by
+  obtain ⟨xs, hxs, hT⟩ := NetLawful.bnaf_surjective_of_slices act hok cond
+    (fun x i hx hi => (NetLawful.bnaf_slice_surjective act hact hsurj hok cond x hx i hi).2) y hy
+  refine ⟨xs, hxs, hT, fun xs' hxs' hT' => ?_, ?_⟩
+  · exact NetLawful.bnaf_injective act hact hok cond xs' xs hxs' hxs (hT'.trans hT.symm)
+  · have := bnaf_inverse_exact act hact hok cond xs hxs solve hsolve y₀ hy₀
+    rwa [hT] at this
+
+/-- the default activation: the GENERATED `LeakyTanh(max_val).transform`, any `max_val > 0`, is a strictly increasing
+bijection of ℝ, so `bnaf_invertible` applies to it. -/
+theorem bnaf_leakytanh_invertible {m : ℝ} (hm : 0 < m) :
+    StrictMono (LeakyTanh.init m : LeakyTanh ℝ).transform ∧
+    Function.Surjective (LeakyTanh.init m : LeakyTanh ℝ).transform := by
+  constructor
+  · apply strictMono_of_deriv_pos
+    intro x
+    rw [(LogDet.leaky_hasDerivAt (LogDet.leaky_init_wf2 hm) x).deriv]
+    exact LogDet.leakyDeriv_pos (Leaves.leaky_init_wf hm) x
+  · intro y
+    exact ⟨_, Leaves.leaky_right (Leaves.leaky_init_wf hm) y⟩
+
+/-- **what happens when the activation is NOT onto ℝ (plain `tanh`)**: with a bounded activation and at least one
+hidden layer every output coordinate is bounded (all weights), so every `y` outside the bound has no preimage — the
+scalar function of the search has no root and `_adapt_interval_to_include_root` never finds a sign change.
+On the real code `BlockAutoregressiveNetwork(key, dim=2, depth=1, block_dim=3, activation=Tanh()).inverse(y)` with
+`y₀` one unit above the range of coordinate 0 does not return (killed after 120 s): the `lax.while_loop` of the
+adaptation doubles the bracket forever.  This is the documented reason the default is `LeakyTanh`
+(flowjax issue 102); it is a domain restriction, not a defect of the search. -/
+theorem bnaf_bounded_activation_not_onto (act : ℝ → ℝ) (M : ℝ) (hM : ∀ z, |act z| ≤ M) (L L' : BnafLayer ℝ)
+    (rest : List (BnafLayer ℝ)) (condLinear : Option (List (List ℝ))) (cond : List ℝ) (i : Nat) :
+    ∃ B : ℝ, ∀ x : List ℝ, |nth (bnafTransform act (L :: L' :: rest) condLinear x cond) i| ≤ B :=
+  NetLawful.bnaf_bounded_act act M hM L L' rest condLinear cond i
+
+/-- **tolerance form** (C01: "or the configured search tolerance for numerically inverted bijections") — the REAL
+inverter (`_autoregressive_bisection_search`: bisection with `tol > 0`, finite `max_iter`, initial bracket
+`[lower, upper]`, initial vector `(upper+lower)/2`, arguments accepted by `__check_init__`) run on
+`y = transform(xs, condition)`.  Hypothesis made explicit
+(`Bisection.LipTriangular`): on vectors of length `dim` the forward map has own-coordinate slope `≥ m > 0`,
+continuous slices, and is `L`-Lipschitz (ℓ¹) in the earlier coordinates.  Then with every `xs[i]` within `D` of
+`[lower, upper]` and `ε` with `max tol ((upper − lower + D + ε(1+L/m)^dim) / 2^(max_iter+1)) ≤ ε` (e.g. `ε = tol` once
+`max_iter` is large enough) the search terminates (explicit fuel) and `|inverse(y)[i] − xs[i]| ≤ ε (1 + L/m)^i`. -/
+theorem bnaf_inverse_tolerance (act : ℝ → ℝ) {dim depth bd : Nat} {Ls : List (BnafLayer ℝ)}
+    {condLinear : Option (List (List ℝ))} (hok : NetLawful.BnafOK dim depth bd Ls condLinear) (cond xs : List ℝ)
+    (hxs : xs.length = dim) {m L : ℝ}
+    (hlip : Bisection.LipTriangular (fun x => bnafTransform act Ls condLinear x cond) dim m L)
+    {lower upper : ℝ} (tol : ℝ) (max_iter : Int) (hargs : inverterArgsOk lower upper tol max_iter = true)
+    (D ε : ℝ) (hD : 0 ≤ D) (hxsD : ∀ i, i < dim → lower - D ≤ xs.getD i 0 ∧ xs.getD i 0 ≤ upper + D)
+    (hε : max tol ((upper - lower + D + ε * (1 + L / m) ^ dim) / 2 ^ (max_iter.toNat + 1)) ≤ ε)
+    (fuel : ℕ) (hf1 : Nat.clog 2 (⌈(D + ε * (1 + L / m) ^ dim) / (upper - lower)⌉₊ + 1) ≤ fuel)
+    (hf2 : max_iter.toNat ≤ fuel) :
+    ∃ out, autoregressiveBisection (bnafInvFn act Ls condLinear cond (bnafTransform act Ls condLinear xs cond))
+        lower upper tol dim max_iter fuel = some out ∧ out.length = dim ∧
+      ∀ i, i < dim → |out.getD i 0 - xs.getD i 0| ≤ ε * (1 + L / m) ^ i := by
+  have hlenT := NetLawful.bnafTransform_length act dim depth bd Ls hok.hshapes hok.hws condLinear cond xs
+  have ht := NetLawful.lipTriangular_sub hlip (bnafTransform act Ls condLinear xs cond) hlenT
+  obtain ⟨h, htol, hmi⟩ := (Bisection.inverterArgsOk_iff lower upper tol max_iter).mp hargs
+  have hε0 : 0 ≤ ε := le_trans htol.le (le_trans (le_max_left _ _) hε)
+  unfold autoregressiveBisection
+  apply Bisection.scan_error_bound ht xs hxs (NetLawful.bnaf_root act hok cond xs) ε hε0 _ _ dim 0 _ (by omega)
+    (by simp) (fun j hj => absurd hj (by omega))
+  intro g r hg hr ⟨i, hi, hri⟩
+  obtain ⟨v, hv, hvr⟩ := Bisection.bisectionSolver_accurate h tol max_iter hmi D _ fuel hf1 hf2 g r hg hr
+    (xs.getD i 0) (hxsD i hi) hD hri
+  exact ⟨v, hv, le_trans hvr hε⟩
+
+/-! ### non-vacuity -/
+
+/-- a coupling layer with an arbitrary (here: non-linear) conditioner and the transformer family
+`NetLawful.exampleFamily` (the generated `Affine`, location = first parameter, scale `2`) is lawful on all of `List ℝ` -/
+theorem coupling_instance :
+    (couplingBij 1 (fun l => l.map fun a => a * a + 1) NetLawful.exampleFamily).Lawful
+      {x | ∀ t ∈ x.drop 1, t ∈ univ} {y | ∀ t ∈ y.drop 1, t ∈ univ} :=
+  coupling_lawful 1 _ NetLawful.exampleFamily univ univ NetLawful.exampleFamily_lawful
+
+/-- a well-shaped MAF net (`MasksPf.mafExample`: dim 2, width 2, depth 1) with the affine family is lawful -/
+theorem maf_instance :
+    (mafBij mafExample NetLawful.exampleFamily).Lawful {x | x.length = 2 ∧ ∀ t ∈ x, t ∈ univ} {y | y.length = 2 ∧ ∀ t ∈ y, t ∈ univ} := by
+  have hW : mafExample.WellShaped := by
+    refine ⟨rfl, rfl, ?_⟩
+    intro l hw hb
+    have hl : l < 2 := hw
+    interval_cases l
+    · exact ⟨2, 2, rfl, rfl, ⟨rfl, by intro row hrow; simp [mafExample] at hrow; subst hrow; rfl⟩, rfl⟩
+    · exact ⟨2, 2, rfl, rfl, ⟨rfl, by intro row hrow; simp [mafExample] at hrow; subst hrow; rfl⟩, rfl⟩
+  exact maf_lawful mafExample hW NetLawful.exampleFamily univ univ NetLawful.exampleFamily_lawful
+
+/-- `MasksPf.bnafExample` (dim 2, depth 1, block_dim 1) satisfies `BnafOK`; with the strictly increasing bijective
+activation `z ↦ z + z` every `y ∈ ℝ²` has a unique preimage found by the exact scan. -/
+theorem bnaf_instance (y : List ℝ) (hy : y.length = 2) :
+    NetLawful.BnafOK 2 1 1 bnafExample none ∧
+    ∃ xs, xs.length = 2 ∧ bnafTransform (fun z => z + z) bnafExample none xs [] = y := by
+  have hok : NetLawful.BnafOK 2 1 1 bnafExample none := NetLawful.bnafExample_ok
+  refine ⟨hok, ?_⟩
+  have hact : StrictMono (fun z : ℝ => z + z) := fun a b h => by simp only; linarith
+  have hsurj : Function.Surjective (fun z : ℝ => z + z) := fun b => ⟨b / 2, by simp only; ring⟩
+  classical
+  let solve : (ℝ → ℝ) → Option ℝ := fun g => if h : ∃ r, g r = 0 then some (Classical.choose h) else none
+  have hsolve : ∀ (g : ℝ → ℝ) (r : ℝ), StrictMono g → g r = 0 → solve g = some r := by
+    intro g r hg hr
+    have h : ∃ r, g r = 0 := ⟨r, hr⟩
+    simp only [solve, dif_pos h]
+    have := Classical.choose_spec h
+    rw [hg.injective (this.trans hr.symm)]
+  obtain ⟨xs, h1, h2, _, _⟩ := bnaf_invertible _ hact hsurj hok [] y hy solve hsolve [0, 0] rfl
+  exact ⟨xs, h1, h2⟩
+
+end NetworkBijections
+/-! ## ===== END network bijections ===== -/
 
 end C01
